@@ -14,7 +14,10 @@ RULE = ("one case = a history of 1-2 recorded operations on one real TapeRecorde
         "resolver / unserializable argument / capture index out of range / failing fallback function; failing input and "
         "output data handlers; a data handler that discards; unserializable values so that copy and save fail; failing or "
         "junk metadata extractors; storage failing on save; discard / forced sampling / enable / disable from the operation "
-        "and from intercepted bodies; sampling rates); non-trivial = at least one interception; distinct = distinct history")
+        "and from intercepted bodies; sampling rates); probes on the real decorators with a logging hook of the service (filter / "
+        "handler / formatter on the recorder's logger at INFO or DEBUG) that reads a public property of the recorder for every "
+        "record while the operation forces sampling / discards / merely intercepts: the decorated operation ends (watchdog; a "
+        "hang is a violation) as the undecorated one; non-trivial = at least one interception; distinct = distinct history")
 ASSUMPTIONS = ["threads: the recorder methods that touch the active recording are modelled as sequences of accesses to the "
                "three shared fields (Recorder/Threads.v), preemption possible between any two accesses, any number of "
                "threads, any schedule; a region under self._finalization_lock counts as one step (static gate on the "
